@@ -25,15 +25,16 @@ SPEC = "fun i o => parse_eqb (fst i) o"
 
 
 def fresh(texts):
-    def one(tw):
-        text, want = tw
+    def one(itw):
+        idx, (text, want) = itw
+        # every fresh interpreter gets its own string-hash seed: the observation must not depend on it
         p = subprocess.run([sys.executable, os.path.join(VERIF, "tools", "fresh_parse.py")], input=json.dumps(dict(text=text, want=want)),
-                           capture_output=True, text=True, cwd="/repo", env=dict(os.environ, PYTHONPATH="/repo", PYTHONHASHSEED="0"), timeout=300)
+                           capture_output=True, text=True, cwd="/repo", env=dict(os.environ, PYTHONPATH="/repo", PYTHONHASHSEED=str(1 + idx % 7)), timeout=300)
         if p.returncode != 0:
             return "(Err EOther)"
         return p.stdout
     with ThreadPoolExecutor(max_workers=12) as ex:
-        return list(ex.map(one, texts))
+        return list(ex.map(one, enumerate(texts)))
 
 
 def corpus(rng, n):
@@ -61,6 +62,10 @@ def corpus(rng, n):
     for i in range(140):
         body += ["%d = N 0 %d" % (i * 10, i + 1), "%d = N 1 %d" % (i * 10, 2 * i + 3)]
     texts.append((chart_text(res=192, sync=ok_sync, tracks=[("ExpertSingle", body)]), None))
+    # charts with many tracks of several instruments (order of the instrument mapping is observable)
+    for k in (4, 8):
+        hs = ["ExpertSingle", "HardDoubleBass", "EasyDrums", "MediumKeyboard", "ExpertGHLGuitar", "HardSingle", "ExpertDoubleRhythm", "EasyGHLBass"][:k]
+        texts.append((chart_text(sync=ok_sync, tracks=[(h, ["%d = N %d 0" % (10 * j, j % 5) for j in range(3)]) for h in hs]), None))
     # random valid charts at a few resolutions (shared and not shared)
     while len(texts) < n:
         R = rng.choice([192, 192, 480, 100, 96])
